@@ -270,6 +270,80 @@ fn mutate(r: &mut Rng, mut p: Vec<u8>) -> Vec<u8> {
     p
 }
 
+/// Pointer structures placed in bytes that are never parsed as a name on their own (header
+/// id/flags, TXT RDATA): chains of n pointers (n around the hop limit 127) ending in a real
+/// name, in themselves, or in a loop; entered from a later record's owner name.  Also names
+/// whose decoded length is exactly around 255.
+pub fn gen_pointer_shapes(r: &mut Rng) -> Vec<u8> {
+    let shape = r.below(6);
+    if shape == 0 {
+        // cycle inside the header: id = C0 00 (self) or id = C0 02, flags = C0 00 (two-cycle)
+        let (id, flags) = *r.pick(&[(0xC000u16, 0x0000u16), (0xC002, 0xC000), (0xC000, 0x8400), (0xC002, 0xC002)]);
+        let mut p = header(id, flags, 1, 0, 0, 0);
+        push_u16(&mut p, 0xC000 | *r.pick(&[0u16, 2, 0, 2, 4, 10]));
+        p.extend_from_slice(&[0, 12, 0, 1]);
+        return p;
+    }
+    let mut p = header(0, 0x8400, 0, 2, 0, 0);
+    // answer 1: root owner, TXT (or unknown type), RDATA = blob
+    p.push(0);
+    push_u16(&mut p, *r.pick(&[16u16, 16, 2, 1]));
+    push_u16(&mut p, 1);
+    p.extend_from_slice(&120u32.to_be_bytes());
+    let n = *r.pick(&[1usize, 2, 3, 10, 125, 126, 127, 128, 129, 200]);
+    let rd_start = p.len() + 2;
+    let mut blob: Vec<u8> = vec![];
+    // element 0: what the chain ends in
+    let end_kind = r.below(4);
+    match end_kind {
+        0 => blob.extend_from_slice(&[1, b'a', 0]), // a real name
+        1 => push_u16(&mut blob, 0xC000 | rd_start as u16), // self pointer
+        2 => {
+            // two-cycle
+            push_u16(&mut blob, 0xC000 | (rd_start + 2) as u16);
+            push_u16(&mut blob, 0xC000 | rd_start as u16);
+        }
+        _ => {
+            // label then pointer back to the label (cycle with a label in it)
+            blob.extend_from_slice(&[1, b'b']);
+            push_u16(&mut blob, 0xC000 | rd_start as u16);
+        }
+    }
+    let mut target = rd_start;
+    if shape == 5 {
+        // long name instead of a long chain: labels so that the decoded text is 253..257 bytes
+        blob.clear();
+        let total = *r.pick(&[253usize, 254, 255, 256, 257]);
+        let mut left = total;
+        while left > 0 {
+            let l = (left - 1).min(63).max(1).min(left.saturating_sub(1).max(1));
+            if left < 2 {
+                break;
+            }
+            blob.push(l as u8);
+            blob.extend(std::iter::repeat(b'n').take(l));
+            left -= l + 1;
+        }
+        blob.push(0);
+    } else {
+        for _ in 0..n {
+            let here = rd_start + blob.len();
+            push_u16(&mut blob, 0xC000 | target as u16);
+            target = here;
+        }
+    }
+    if p[13] == 0 && p[14] == 1 && blob.len() != 4 {
+        // type A needs RDLENGTH 4: switch to TXT
+        p[14] = 16;
+    }
+    push_u16(&mut p, blob.len() as u16);
+    p.extend(&blob);
+    // answer 2: owner = pointer to the head of the chain, type A
+    push_u16(&mut p, 0xC000 | target as u16);
+    p.extend_from_slice(&[0, 1, 0, 1, 0, 0, 0, 120, 0, 4, 10, 0, 0, 1]);
+    p
+}
+
 const ALPHABET: [u8; 7] = [0x00, 0x01, 0x3F, 0x40, 0xC0, 0x0C, b'a'];
 
 fn exhaustive(max_len: usize, emit: &mut dyn FnMut(String)) {
@@ -329,6 +403,10 @@ pub fn generate(r: &mut Rng, tier: &str, emit: &mut dyn FnMut(String)) {
             }
             _ => gen_grammar(r),
         };
+        emit(format!("decode {}", hex(&p)));
+    }
+    for _ in 0..(if thorough { 4000 } else { 400 }) {
+        let p = gen_pointer_shapes(r);
         emit(format!("decode {}", hex(&p)));
     }
     // amplification shapes: long pointer chains referenced by many records, 9000 bytes
